@@ -10,7 +10,7 @@
 From Coq Require Import List NArith ZArith Bool.
 From Storage Require Import Base.Bytes Links.LinkModel Links.LinkModelProofs Links.SetLinksMerge
   Links.SetLinksMergeProofs Links.RefCount Links.RefCountProofs Links.LinkMachine Links.LinkMachineProofs
-  Links.HierMachine Links.HierProofs Links.HierWhere Links.HierWhereProofs.
+  Links.HierMachine Links.HierProofs Links.HierWhere Links.HierWhereProofs Links.HierStrategy.
 Import ListNotations.
 Local Open Scope Z_scope.
 
@@ -308,3 +308,52 @@ Theorem delete_where_cleans : forall T U M sd lv all ids h h', hinv T U M h ->
      hl h' p sd' a b = hl h p sd' a b /\ hr h' p sd' a b = hr h p sd' a b).
 Proof. exact delete_where_cleans_lemma. Qed.
 Print Assumptions delete_where_cleans.
+
+(* ---- links written through the entity strategy (Links/HierStrategy.v) ------------------------------------
+   store.Create / store.Update of an entity whose strategy persists a link field with
+   PersistContext.SetLinkedIds (= SetLinks of the field's collection), through the store that owns the
+   field or through a child store of it (ctx.GetParentContext()).  They are derived operations: a
+   successful transaction is the transaction of the Create / SetLinks calls they amount to ... *)
+Theorem strategy_ops_are_set_links : forall T U ops h,
+  (forall h', run_sops T U ops h = HDone h' -> run_xops T U (sflatten T U ops h) h = HDone h') /\
+  (forall hs, run_shist T U (embed_shist hs) h = run_xhist T U hs h).
+Proof. intros T U ops h. split; [intros h'; apply run_sops_flatten | intros hs; apply run_shist_embed]. Qed.
+Print Assumptions strategy_ops_are_set_links.
+
+(* ... every state a history with such creates / updates reaches satisfies the invariants, so in every
+   pair of every level the links are symmetric and join existing entities, the counts agree ... *)
+Theorem strategy_reachable_invariants : forall (T : topo) (U : univ) (hs : shistory), shist_in U hs ->
+  shist_counts_ok hs -> shist_bound 0 hs <= max_int32 -> hinv T U (shist_bound 0 hs) (run_shist T U hs hinit).
+Proof. exact strategy_reachable_lemma. Qed.
+Print Assumptions strategy_reachable_invariants.
+
+Theorem strategy_links_symmetric_counts_agree : forall (T : topo) (U : univ) (hs : shistory), shist_in U hs ->
+  shist_counts_ok hs -> shist_bound 0 hs <= max_int32 ->
+  let h := run_shist T U hs hinit in
+  forall p, (p < npairs T)%nat -> forall sd a b,
+  (hl h p sd a b = true <-> hl h p (other sd) b a = true) /\
+  (In b (get_links U (view T p h) sd a) <-> In a (get_links U (view T p h) (other sd) b)) /\
+  is_linked (view T p h) sd a b = is_linked (view T p h) (other sd) b a /\
+  (hl h p sd a b = true ->
+     hp h sd (lvl T p sd) a = true /\ hp h (other sd) (lvl T p (other sd)) b = true /\
+  hp h sd 0%nat a = true /\ hp h (other sd) 0%nat b = true) /\
+  match hr h p sd a b, hr h p (other sd) b a with
+  | Some c, Some c' => c = c' /\ 0 < c <= max_int32
+  | None, None => True
+  | _, _ => False
+  end.
+Proof. exact strategy_pairs_lemma. Qed.
+Print Assumptions strategy_links_symmetric_counts_agree.
+
+(* ... and a link field that names an entity the peer store of its collection does not hold fails the
+   Create / Update - through whichever store of the family the call goes - and with it the transaction,
+   which leaves the state it started from *)
+Theorem strategy_missing_target_fails : forall T U M h sd lv x p ids k, univ_ok U -> hinv T U M h -> 0 <= M ->
+  M <= max_int32 -> In x (uni U sd) ->
+  In k ids -> hp h (other sd) (lvl T p (other sd)) k = false ->
+  sstep T U (SCreate sd lv x p ids) h = HFailed /\ sstep T U (SUpdate sd lv x p ids) h = HFailed /\
+  (forall pre post h0, run_sops T U pre h0 = HDone h ->
+     run_stx T U (pre ++ SCreate sd lv x p ids :: post) h0 = (false, h0) /\
+  run_stx T U (pre ++ SUpdate sd lv x p ids :: post) h0 = (false, h0)).
+Proof. exact strategy_missing_lemma. Qed.
+Print Assumptions strategy_missing_target_fails.
